@@ -358,3 +358,8 @@ def check(P, R, tier):
     R.explanation = EXPLANATION
     R.assumptions = ["ed25519-dalek verify_strict / verify_batch are sound", "SHA-512 collision resistance"]
     rules(P, R)
+    # "every certificate carries ... stake [that] reaches the quorum": the threshold itself (C17) and the aggregator's
+    # distinct-before-count accounting (C19.G1/G2: a rejected duplicate must not change what is assembled later)
+    from ..common import fold
+    fold(R, P, "c17", ("C17.O1", "C17.O2", "C17.O3", "C17.O4", "C17.O5", "C17.O6"), "C04.S5", 12)
+    fold(R, P, "c19", ("C19.G1", "C19.G2"), "C04.S5", 6)
